@@ -4,6 +4,7 @@ CHECK = {
         suite("rot", "c14", 400, 4000, stdin=True, args=["-suite", "rot"], timeout={"quick": 600, "thorough": 1800}),
         suite("ps", "c14", 800, 8000, stdin=True, args=["-suite", "ps"], timeout={"quick": 600, "thorough": 1800}),
     ],
+    "search_seeds": {"quick": 3, "thorough": 2},
     "lean_sources": ["ClusterVerif/Model/C14.lean", "ClusterVerif/Spec/C14.lean", "ClusterVerif/Lemmas/C14.lean"],
     "rule": "pins: (pinset of 0-40 generated pins over all types/options, prior content of the target, stream damage) through "
             "Marshal/Unmarshal, SnapshotSave/OfflineState, raft and crdt state-manager export/import (and a started Raft peer on some); "
